@@ -59,8 +59,8 @@ def open_options(tr, recv):
     return opts
 
 
-def effects_of(facts, inter, b):
-    """[(abstract effect, path-argument terms, line)] of one operation (closures included)"""
+def effects_of(facts, inter, b, _depth=0):
+    """[(abstract effect, path-argument terms, line)] of one operation (closures and private in-crate helpers included)"""
     out = []
     for cb in inter.code_bodies(b):
         tr = get_tracer(facts, cb)
@@ -70,6 +70,11 @@ def effects_of(facts, inter, b):
             if s.path.startswith("filetime::"):
                 key = "filetime::" + sh.split("::")[-1]
             if key not in EFFECTS:
+                hb = inter.local_callee(s) if _depth < 2 else None
+                if hb is not None and hb.id != b.id and not (hb.impl and hb.impl["trait"]) and hb.vis != "pub":
+                    # an extracted helper: its effects count as the operation's, on the arguments passed to it
+                    for eff, _, _ in effects_of(facts, inter, hb, _depth + 1):
+                        out.append((eff, [norm(tr.operand(a)) for a in s.args], s.line))
                 continue
             eff = EFFECTS[key]
             args = [norm(tr.operand(a)) for a in s.args]
@@ -158,6 +163,15 @@ def table_o_shape(facts, rep, rule, w):
             rep.ob(rule, b.id, "%s: %s on translator(path)" % (op, eff), okp,
                    "translated path%s" % (" (src, dest in order)" if len(idxs) == 2 else "") if okp else
                    "the std call does not take translator(<own path argument>) %s" % ("in (src, dest) order" if len(idxs) == 2 else ""), line)
+    # exists is total: every failure of the probe (ENOTDIR below a file, EACCES, ...) means "not there", like the in-memory
+    # backend's map lookup, which cannot fail
+    b = ops.get("exists")
+    if b is not None:
+        errs = [ct for ct, _, _ in inter.ret_cases(b) if inter.case_polarity(ct) != "ok"]
+        n += 1
+        rep.ob(rule, b.id, "exists never fails", not errs, "no Err return" if not errs else
+               "PhysicalFS::exists can return Err (%s): a probe below a regular file (ENOTDIR) is an error here but Ok(false) "
+               "on the in-memory backend, and is_file/is_dir/remove_dir_all inherit the difference" % fmt(norm(errs[0]))[:80], b.span)
     for op in NOT_OVERRIDDEN:
         n += 1
         rep.ob(rule, w.physical, "%s not overridden" % op, op not in ops,
@@ -213,4 +227,27 @@ def mkdir_not_asked(facts, rep, rule, w, D):
                 rep.ob(rule, pb.id, "mkdir is attempted without asking first", not asked, "" if not asked else
                        "fs::create_dir is control-dependent on a prior stat: check-then-create loses the race and reports a raw "
                        "AlreadyExists I/O error instead of DirectoryExists/FileExists", blk.term.line)
+                # the probe that classifies AlreadyExists runs after the failed attempt: a probe made before it can be stale
+                # (directory created by another thread in between -> classified FileExists, which create_dir_all does not tolerate)
+                tr = get_tracer(facts, cb)
+                for cb2 in inter.code_bodies(pb):
+                    for s2 in inter.sites(cb2):
+                        key = s2.short
+                        if EFFECTS.get(key) not in ("stat", "lstat", "access"):
+                            continue
+                        if cb2 is cb:
+                            after = blk.idx in tr.cfg.dominating_blocks(s2.bb) and s2.bb != blk.idx
+                        else:
+                            # inside a closure: it must be the error mapper applied to the attempt's own result
+                            after = cb2.parent == cb.id or cb2.root == cb.id
+                            if after:
+                                after = False
+                                for b3 in cb.calls():
+                                    if any(("closure", cb2.id) == strip(tr.operand(a))[:2] for a in b3.term.args) and \
+                                            any(x[0] == "call" and len(x) > 3 and x[3] == (cb.id, blk.idx) for a in b3.term.args for x in walk(tr.operand(a))):
+                                        after = True
+                        n += 1
+                        rep.ob(rule, pb.id, "occupant probe runs after the failed mkdir", after, "" if after else
+                               "%s is evaluated before fs::create_dir was attempted: the AlreadyExists classification uses a stale answer, "
+                               "so a caller that loses the mkdir race reports FileExists for a directory and create_dir_all fails" % key, s2.line)
     return n
